@@ -1,6 +1,9 @@
 package gen
 
-import "strings"
+import (
+	"strings"
+	"unicode"
+)
 
 // ---- deb822 document model: documents are RENDERED from it; expected values are computed from it ----
 
@@ -33,7 +36,7 @@ func (f DField) RefValue() string {
 		sb.WriteString(first + "\n")
 	}
 	for _, l := range f.Cont {
-		t := strings.TrimRight(l.Text, " \t\r\n")
+		t := strings.TrimRightFunc(l.Text, unicode.IsSpace) // as on the key line: "trailing whitespace" is Unicode white space
 		if t == "." {
 			t = ""
 		}
@@ -90,6 +93,10 @@ type RenderOpt struct {
 	BlankBetween   int  // EXTRA blank lines between paragraphs (0 = exactly one)
 	CommentAt      int  // 0 = none; p>0 = a comment line inserted before physical line p-1 (p-1 == number of lines: at the end)
 	CommentText    int  // index into D822Comments
+	// FlipAt p>0: physical line p-1 (after comment insertion) ends in the OTHER line ending (CRLF in an LF document, LF in
+	// a CRLF one); with FlipFrom every line from there to the end does - files that were edited on two systems
+	FlipAt   int
+	FlipFrom bool
 }
 
 // D822Comments are the comment lines inserted by RenderOpt.CommentAt: with text and a colon, bare, two characters,
@@ -150,6 +157,24 @@ func (d DDoc) Render(opt RenderOpt) string {
 	if opt.CRLF {
 		eol = "\r\n"
 	}
+	if opt.FlipAt > 0 {
+		other := "\r\n"
+		if opt.CRLF {
+			other = "\n"
+		}
+		var sb strings.Builder
+		for i, l := range lines {
+			e := eol
+			if i == opt.FlipAt-1 || (opt.FlipFrom && i >= opt.FlipAt-1) {
+				e = other
+			}
+			if i == len(lines)-1 && opt.NoFinalNewline && opt.BlankAfter == 0 {
+				e = ""
+			}
+			sb.WriteString(l + e)
+		}
+		return sb.String()
+	}
 	s := strings.Join(lines, eol)
 	if len(lines) > 0 {
 		s += eol
@@ -163,13 +188,15 @@ func (d DDoc) Render(opt RenderOpt) string {
 // ---- alphabets ----
 
 // (the last two end in a character whose UTF-8 encoding ends in 0xA0 / 0x85 - bytes that are white space as Latin-1)
-var D822Firsts = []string{"", "v", "v w", "v: w", "#v", "é\tz", ".", "3-8% of %s", "J\xf6rg a\rb", "abilit\u00e0", "\u00c5"}
+var D822Firsts = []string{"", "v", "v w", "v: w", "#v", "é\tz", ".", "3-8% of %s", "J\xf6rg a\rb", "abilit\u00e0", "\u00c5", "v\f\u00a0"}
 
 var D822ContLines = []DLine{
 	{' ', "x"}, {'\t', "x"}, {' ', " indented"}, {'\t', " indented"}, {' ', "."}, {'\t', "."}, {' ', "x  "}, {' ', "y: z"},
 	{' ', "#include <x>"}, {' ', "\ttabbed"}, {' ', "100%d %"}, {' ', "Ren\xe9 \xff"}, {' ', ".."}, {' ', ". ."},
 	{' ', " ."}, {'\t', "\t."}, // an indented dot is text (the '.' rule is about the line " ." only)
 	{' ', "citt\u00e0"},
+	// trailing white space that is not blank / tab / CR: form feed, vertical tab, NBSP, ideographic space
+	{' ', "x\f"}, {' ', "x\v \u00a0"}, {'\t', "x\u3000"},
 }
 
 // D822FieldShapes: every first line x every sequence of 0..maxCont continuation lines.
